@@ -19,10 +19,25 @@ type reGenOpts struct {
 }
 
 var reAlphabetASCII = []rune{'a', 'b', 'c', 'A', 'B', 'k', 'K', 's', 'S', 'z', '0', '1', '9', '_', '+', '-', '.', ' ', '/', '*', '\\', ']', '[', '^', '\n', '\t', '{', '}', '(', ')', '|', '?', '"', '\''}
-var reAlphabetUni = []rune{0xe9, 0xc9, 0xdf, 0x436, 0x416, 0x3b1, 0x3a3, 0x3c3, 0x3c2, 0x212a, 0x17f, 0x4e2d, 0x1f600, 0xfffd, 0x7f, 0x80, 0xff, 0x100, 0xb5, 0x345, 0x1c4, 0x1c5, 0x1c6, 0x10ffff, 0xd7ff, 0xe000, 0x2028}
+var reAlphabetUni = []rune{0xe9, 0xc9, 0xdf, 0x436, 0x416, 0x3b1, 0x3a3, 0x3c3, 0x3c2, 0x212a, 0x17f, 0x4e2d, 0x1f600, 0xfffd, 0x7f, 0x80, 0xff, 0x100, 0xb5, 0x345, 0x1c4, 0x1c5, 0x1c6, 0x10ffff, 0xd7ff, 0xe000, 0x2028,
+	// boundaries of the generated lexers' rune maps (direct table below 2048, compressed map above)
+	0x7fe, 0x7ff, 0x800, 0x801}
 var reSmallAlphabet = []rune{'a', 'b', 'c', 'A', 'x', '0', '1', '-', ' '}
 
+// reCapRune, when > 0, caps every generated rune (and keeps \p escapes out): the generated
+// lexer's rune map then ends exactly at a chosen boundary. Set by a case generator for the
+// duration of one draw.
+var reCapRune rune
+
 func genRune(t *rapid.T, o reGenOpts, inClass bool) rune {
+	r := genRuneUncapped(t, o, inClass)
+	if reCapRune > 0 && r > reCapRune {
+		r = reCapRune - r%3
+	}
+	return r
+}
+
+func genRuneUncapped(t *rapid.T, o reGenOpts, inClass bool) rune {
 	if o.Small {
 		if o.Bytes && rapid.IntRange(0, 9).Draw(t, "hi") == 0 && inClass {
 			return rune(rapid.IntRange(0x80, 0xff).Draw(t, "hibyte"))
@@ -77,11 +92,11 @@ func genEscName(t *rapid.T, o reGenOpts) string {
 	// generated: whether negation applies before or after folding is not documented (and differs
 	// between a standalone escape and the same escape inside brackets).
 	simple := []string{"d", "s"}
-	if !o.FoldCtx {
+	if !o.FoldCtx && reCapRune == 0 {
 		simple = append(simple, "w", "W", "D", "S")
 	}
 	k := rapid.IntRange(0, 9).Draw(t, "esck")
-	if k < 4 || o.Small {
+	if k < 4 || o.Small || reCapRune > 0 {
 		return simple[rapid.IntRange(0, len(simple)-1).Draw(t, "simple")]
 	}
 	var name string
